@@ -73,6 +73,16 @@ def build(tier, work, builder):
                       ("literals", ["ExpressionBuilder::expr_nat", "expr_true", "expr_false", "expr_double", "expr_deadlock", "ExpressionBuilder::make_constant"])):
         jobs.append(F.Job("c02_" + name, "h_c02_" + name, [obj, hobj], timeout=300, unwind=10,
                           functions=fns + ["ExpressionFragments::operator[]/push/pop", "expression_t::create_*"], bound_note="fragment stack of depth <= 6"))
+    # ---- part (ii), bounded: the integer-literal action of lexer.l
+    lx = X.Source("src/lexer.l")
+    s, e = lx.find_unique(r"^\{num\}\s*\{", what="lexer.l: {num} rule")
+    be = lx.match_brace(e - 1)
+    act = X.Slice("lexer.l: {num} rule action", lx, e - 1, be)
+    write(work, "lex_num_action.inc", act.text + "\n")
+    slices.append(act)
+    lobj = builder.cc(os.path.join(CDIR, "lex02.c"), includes=[work])
+    jobs.append(F.Job("c02_lex_num", "h_c02_lex_num", [lobj], timeout=600, unwind=16, level="bounded", functions=["lexer.l {num} rule action (integer literals)"],
+                      bound_note="digit strings of length <= 12; atoi/strtol/snprintf by assumed contracts over an abstract value VAL (facts A1-A3 in contracts/C02/lex02.c)"))
     # ---- part (iii): grammar tables against the operator table
     tab = grammar_tables(work)
     slices.append(tab["slice"])
@@ -85,7 +95,7 @@ def build(tier, work, builder):
         "trusted_base": ["CBMC 6.11 C++ front end + SAT", "stubs/expr_tree.h", "contracts/C02/operator_table.json (written from the UPPAAL language reference and the property statement)"],
         "assumptions": ["bison's LALR tables realise the declared precedences and associativities (bison trusted; %expect 2 conflicts not analysed)",
                         "the scanner maps operator spellings to the tokens named in the table (lexer.l keyword/operator rules: not under contract except the aliases checked textually)",
-                        "integer/floating literal conversion in lexer.l (atoi/snprintf/atof) is not under contract in this tier",
+                        "integer literals: the {num} action of lexer.l is under a BOUNDED check (<= 12 digits) with libc models for atoi/strtol/snprintf/strcmp (trusted); floating literals go through atof (glibc correct rounding: assumed)",
                         "identifier binding is C07's subject"],
         "explanation": "",
     }
